@@ -37,7 +37,8 @@ ASSUMPTIONS = [
     "the two neighbouring token classes and the quote-context stack, all of which occur within the explored bounds",
     "which neighbours may be written without white space is decided by the independent reference lexer "
     "(models/lexer.py): conservative, i.e. 'nothing' is only tried where the documentation clearly keeps the tokens apart",
-    "the treatment of a back-slash inside back-ticks is not documented: names containing a back-slash are UNSPECIFIED",
+    "back-quoted names have no escapes: a back-slash inside back-ticks is an ordinary character of the name (as the rest of "
+    "the code base, which matches `[^`]*`, already assumed; fixed in the tokenizer by 7acefaa)",
     "two Python fragments 'denote the same factor' iff the factor expressions are equal strings (Factor identity) and "
     "'normalised' means ast-equal to the original with back-ticked names as variables",
     "spans: only 'ordered, disjoint, inside the source, delimiting the text' is demanded; whether the span of a quoted "
@@ -225,9 +226,6 @@ NAME_FORMS = [
 def drv_names(c, ctx, col):
     name = "".join(c.seq(NAME_CHARS, ctx["L"], 1))
     form = c.pick(NAME_FORMS if len(name) < ctx["L"] or ctx["L"] < 3 else ctx["forms_longest"])
-    if "\\" in name:
-        col.count("unspecified:back-slash-in-name")
-        raise Skip()
     if re.search(r"\W", name):
         col.interesting()
     check_name(col, name, form)
@@ -274,6 +272,17 @@ def drv_names_numeric(c, ctx, col):
     check_name(col, name, form, no_intercept=True)
 
 
+DOT_NAMES = [".", "..", "a.", ".a", "a.b", " .", ". ", "a .", "1.", ".1", "._"]
+
+
+def drv_names_dots(c, ctx, col):
+    """column names made of / containing dots: a back-quoted name is a name, never the '.' wildcard"""
+    name = c.pick(DOT_NAMES)
+    form = c.pick(NAME_FORMS)
+    col.interesting()
+    check_name(col, name, form, no_intercept=True)
+
+
 def check_name(col, name, form, no_intercept=False):
     import unicodedata
 
@@ -307,6 +316,19 @@ def check_name(col, name, form, no_intercept=False):
                       sig=name_sig(name, fname, "quoted-name-not-verbatim"))
         return
 
+    # 1b. the recorded span of the quoted name delimits it in the formula string
+    if lookups is not None:
+        from formulaic.parser.algos.tokenize import tokenize
+        toks = [t for t in tokenize(formula) if t.kind is not None and t.kind.value == "name" and t.token == name]
+        spans_ok = bool(toks) and all(isinstance(t.source_start, int) and isinstance(t.source_end, int)
+                                      and name in formula[t.source_start:t.source_end + 1]
+                                      and formula[t.source_start:t.source_end + 1].strip("`") == name for t in toks)
+        if not spans_ok:
+            col.violation(key, {"formula": formula, "name": name, "tokens": [(t.token, t.source_start, t.source_end) for t in tokenize(formula)],
+                                "repro": "[(t.token, t.source_start, t.source_end) for t in tokenize(%r)]" % formula},
+                          sig=name_sig(name, fname, "quoted-name-span-does-not-delimit-it"))
+            return
+
     # 2. materialized: the factor picks that column
     data = {name: VALS, "zz": ZZ, "other": [9.0, 8.0, 7.0]}
     folded = unicodedata.normalize("NFKC", name)
@@ -338,6 +360,8 @@ def name_sig(name, form, symptom):
     import keyword
     import unicodedata
     where = "in-python-fragment" if form in ("call", "brace", "brace-twice") else "as-operand"
+    if name == "." and where == "as-operand":
+        return "backticked-dot-read-as-wildcard-operator"
     if re.fullmatch(r"\s*[-+]?(\d[\d_]*\.?\d*|\.\d+)([eE][-+]?\d+)?j?\s*|0x[0-9a-f]+|\d+ \d+", name):
         return "%s:%s[name-reads-like-a-numeric-literal]" % (symptom, where)
     # one signature per class of name that cannot be spelled as a Python identifier although it looks like one
@@ -613,6 +637,77 @@ LIT_TEMPLATES = [
 ]
 
 
+#  stateful callees: the literal travels through the generated code that threads transform state
+STATEFUL_TEMPLATES = ["center(lab(x, %s))", "scale(lab(x, %s))", "bs(lab(x, %s), df=4)", "C(g, Treatment(%s))", "{center(lab(x, %s)) + 1}",
+                      "center(lab(`a b`, %s))"]
+
+
+def drv_py_strings_stateful(c, ctx, col):
+    """string literals (quotes, back-slashes, back-ticks, brackets inside) as arguments within STATEFUL transforms:
+    parsed content preserved, evaluated (the callee receives the content), and the fitted spec re-applied to new data"""
+    import numpy as np
+    import pandas as pd
+    from formulaic import model_matrix
+
+    q = c.pick(["'", '"'])
+    Q = '"' if q == "'" else "'"
+    body = "".join(a.replace("q", q).replace("Q", Q) if a in ("\\q", "Q") else a for a in c.seq(LIT_ATOMS, ctx["L"]))
+    lit = q + body + q
+    content = ast.literal_eval(lit)
+    tmpl = c.pick(STATEFUL_TEMPLATES)
+    formula = tmpl % lit
+    inner = formula[1:-1] if formula.startswith("{") else formula
+    if "\\" in body or "'" in body or '"' in body:
+        col.interesting()
+    key = "py-strings-stateful :: %r" % formula
+    col.sample({"formula": formula, "literal_content": content})
+    detail = {"formula": formula, "literal": lit, "literal_content": content,
+              "repro": "model_matrix(%r, DataFrame({'x': [1.5, 2.5, 4.0, 6.0, 7.5], 'a b': ..., 'g': [%r, 'zz-other', ...]}), "
+                       "context={'lab': lambda x, s: x})" % (formula, content)}
+    got = factor_of(formula)
+    if got[0] != "OK" or string_constants(got[1]) != string_constants(inner) or LX.python_ast(got[1]) != LX.python_ast(inner):
+        col.violation(key, dict(detail, got=got), sig="string-literal-in-stateful-call:not-parsed-verbatim")
+        return
+    seen = []
+
+    def lab(x, s):
+        seen.append(s)
+        return x
+
+    xs = [1.5, 2.5, 4.0, 6.0, 7.5]
+    g = [content, "zz-other", content, "zz-other", "zz-other"]
+    df = pd.DataFrame({"x": xs, "a b": [v + 1 for v in xs], "g": pd.Series(g, dtype=object)})
+    try:
+        mm = model_matrix(formula, df, context={"lab": lab})
+        df2 = df.assign(x=df["x"] + 10, **{"a b": df["a b"] + 10})
+        mm2 = mm.model_spec.get_model_matrix(df2, context={"lab": lab})
+    except Exception as e:  # noqa
+        col.violation(key, dict(detail, error="%s: %s" % (type(e).__name__, str(e)[:300])), sig="string-literal-in-stateful-call:not-evaluated")
+        return
+    if "lab(" in formula and set(seen) != {content}:
+        col.violation(key, dict(detail, literals_received=seen), sig="string-literal-in-stateful-call:content-changed")
+        return
+    cols = [mm.iloc[:, j].to_numpy(dtype=float) for j in range(mm.shape[1]) if mm.columns[j] != "Intercept"]
+    cols2 = [mm2.iloc[:, j].to_numpy(dtype=float) for j in range(mm2.shape[1]) if mm2.columns[j] != "Intercept"]
+    src = np.array([v + 1 for v in xs] if "`a b`" in formula else xs)
+    ok = True
+    if tmpl.startswith(("center(", "{center(")):
+        off = 1.0 if tmpl.startswith("{") else 0.0
+        ok = (len(cols) == 1 and np.allclose(cols[0], src - src.mean() + off)
+              and len(cols2) == 1 and np.allclose(cols2[0], src + 10 - src.mean() + off))      # state (the mean) is re-used
+    elif tmpl.startswith("scale("):
+        ok = len(cols) == 1 and np.allclose(cols[0], (src - src.mean()) / src.std(ddof=1)) and \
+            len(cols2) == 1 and np.allclose(cols2[0], (src + 10 - src.mean()) / src.std(ddof=1))
+    elif tmpl.startswith("C("):
+        ind = np.array([0.0 if v == content else 1.0 for v in g])
+        ok = len(cols) == 1 and np.allclose(cols[0], ind) and len(cols2) == 1 and np.allclose(cols2[0], ind)
+    else:  # bs: a basis of 4 columns whose rows sum to one minus the dropped part; only shape and finiteness
+        ok = len(cols) == 4 and all(np.isfinite(v).all() for v in cols) and len(cols2) == 4
+    if not ok:
+        col.violation(key, dict(detail, got_columns=[v.tolist() for v in cols], got_columns_on_new_data=[v.tolist() for v in cols2]),
+                      sig="string-literal-in-stateful-call:wrong-values")
+
+
 def string_constants(code):
     """contents of all string literals of a Python expression, in order (back-ticked names aliased first)"""
     src, _ = LX.alias_backticks(code)
@@ -815,6 +910,11 @@ def subchecks(tier, seed):
                     "placement": "the character alone at one boundary (incl. leading / trailing), single spaces elsewhere; and at every boundary"}),
         Sub("names-numeric", drv_names_numeric, {}, shard_depth=1,
             bounds={"names": NUMERIC_NAMES, "forms": [f[1] for f in NAME_FORMS], "parser": "include_intercept=False (see K2 of C01)"}),
+        Sub("names-dots", drv_names_dots, {}, shard_depth=1,
+            bounds={"names": DOT_NAMES, "forms": [f[1] for f in NAME_FORMS], "parser": "include_intercept=False"}),
+        Sub("py-strings-stateful", drv_py_strings_stateful, {"L": 2 if quick else 3}, shard_depth=3,
+            bounds={"literal_body_atoms": LIT_ATOMS, "max_atoms": 2 if quick else 3, "quotes": ["'", '"'], "templates": STATEFUL_TEMPLATES,
+                    "checks": "parsed content, evaluation, values, re-application of the fitted spec to new data"}),
         Sub("names-special", drv_names_special, {"names": special_names(2 if quick else 3), "L": 2 if quick else 3,
                                                  "forms_longest": [f for f in NAME_FORMS if f[0] in ("alone", "call", "brace-twice")]},
             shard_depth=1, bounds={"names": "all Python keywords and soft keywords; every string of length <= %d over %r"
